@@ -126,8 +126,13 @@ impl<'ast> VisitorMut<'ast> for BindingEscapeAnalyzer<'_> {
         self.visit_expression_mut(&mut node.val)?;
         let direct_eval_old = self.direct_eval;
         self.direct_eval = node.contains_direct_eval || self.direct_eval;
+        // A lexical declaration in one clause is in scope in the clauses after it, and those
+        // can be entered without running the declaration. Whether such a binding is still in
+        // its temporal dead zone cannot be decided at compile time, so it cannot be kept in a
+        // register: it has to live in an environment.
+        let skippable_declarations = node.cases.len() > 1;
         if let Some(scope) = &mut node.scope {
-            if self.direct_eval {
+            if self.direct_eval || skippable_declarations {
                 scope.escape_all_bindings();
             }
             std::mem::swap(&mut self.scope, scope);
